@@ -72,10 +72,17 @@ fn main() {
         let mut why = String::new();
         let mut bad_step = 0usize;
         let mut poisoned = false;
+        let mut unplanned = false;
+        let mut host = HostState { uniq: uniq.clone(), ..Default::default() };
         for (si, st) in case.steps.iter().enumerate() {
             let src = st.src.replace("@@", &uniq);
             *current.lock().unwrap() = Some((case.id.clone(), Instant::now()));
-            let got = run_step(e, &log, &src);
+            let g0 = gen_of(e);
+            let got = match &st.op {
+                Some(op) => run_op(e, &log, &mut host, op),
+                None => run_step(e, &log, &src),
+            };
+            if gen_of(e) != g0 && st.op.as_deref() != Some("force_recycle") { unplanned = true; }
             if got.class == "panic" { poisoned = true; }
             if why.is_empty() {
                 if let Some(w) = judge(st, &got) { why = w; bad_step = si; }
@@ -88,7 +95,10 @@ fn main() {
             // a panic may leave the shared engine in an arbitrary state; replace it
             shared = new_engine(&log);
         }
-        let v = Verdict { id: case.id.clone(), tag: case.tag.clone(), pass: why.is_empty(), why, step: bad_step, got: gots };
+        // "|unplanned-recycle": the engine's global-slot recycler ran during a step that did not ask
+        // for it (policy event caused by the accumulated history of a shared engine)
+        let vtag = if unplanned { format!("{}|unplanned-recycle", case.tag) } else { case.tag.clone() };
+        let v = Verdict { id: case.id.clone(), tag: vtag, pass: why.is_empty(), why, step: bad_step, got: gots };
         let mut o = out.lock().unwrap();
         writeln!(o, "{}", serde_json::to_string(&v).unwrap()).unwrap();
         o.flush().unwrap();
